@@ -87,6 +87,8 @@ func checkC16(w *World, r *Report) {
 		la := NewLockAnalysis(w)
 		reexport(w, r, "P9", func(sub *Report) { checkLockHygiene(w, sub, la) }, "R09.2i", "R09.2ii")
 	})
+	r.Rule("P10", 2, "a request gets a fresh scope that only it closes: scope objects are never re-opened (the disposed flag is written by the gate of Close only), so the deferred Close of one request cannot close the scope of another")
+	r.Try(func() { ruleDisposedFlagWriters(w, r, "P10") })
 	r.Rule("P8", 5, "every configured middleware runs: the integrations never identify a user callback by its code pointer (closures of one factory share it)")
 	r.Try(func() { ruleNoCallbackIdentity(w, r, "P8") })
 	r.Rule("P7", 3, "a scope whose creation fails is closed before the error reaches the middleware's error handler (ownership of the cancel function and of the partial scope)")
